@@ -181,7 +181,8 @@ def run(sess: Session):
     coreflows.run_flows(sess, PROP, {'Synset__iter_local_relations', 'Synset__iter_relations',
                                      'Synset__iter_expanded_relations', 'Sense__iter_sense_relations',
                                      'Sense__iter_sense_synset_relations'})
-    addchecks.run_row_images(sess, PROP, only={'_insert_synset_relations', '_update_lookup_tables', '_insert_lexicon'})
+    addchecks.run_row_images(sess, PROP, only={'_insert_synset_relations', '_insert_sense_relations', '_update_lookup_tables',
+                                                '_insert_lexicon'})
     from contracts import C10
     try:
         for ob in C10.identity_obligations():
